@@ -294,6 +294,42 @@ class ManifestTopLevel(Target):
         return [('leftmost-path-segment-of-every-key', list(out.value) == [k.split('/', 1)[0] for k in st.keys])]
 
 
+class ExpandList(Base):
+    """FlowIR.expand_component_references: the list form used at load time -- every entry expanded exactly like
+    expand_potential_component_reference does (component references to their absolute spelling in the context stage;
+    reserved folders, application dependencies given by PATH, top-level folders and files untouched), order and length kept."""
+    name = 'FlowIR.expand_component_references'
+    qualname = 'FlowIR.expand_component_references'
+
+    def setup(self, c):
+        cls = flowir_cls(c)
+        stage = c.int('stage')
+        c.require(compare('>=', stage, 0))
+        prod = c.atom('prod', 'Generate-Input_2', excludes=NAME_EXCL, distinct_from=list(RESERVED) + ['stage', ''],
+                      not_stage_prefixed=True, first_not_digit=True)
+        method = METHODS[c.choice('method', len(METHODS))]
+        refs = [S(prod, ':', method), S('stage', numeral(c, stage), '.', prod, '/out.txt:copy'), 'data/file.txt:copy',
+                '%s/bin/tool:ref' % APPNAMES[0], '%s/x:copy' % TOPLEVEL[0]]
+        empty = c.one_of('empty_list', [False, True])
+        return State(args=[cls, [] if empty else refs, stage, None, list(APPDEPS), list(TOPLEVEL)], cls=cls, refs=refs, stage=stage,
+                     prod=prod, method=method, empty=empty)
+
+    def real_function(self):
+        return FlowIR.expand_component_references.__func__
+
+    def ensures(self, c, st, out):
+        if out.kind == 'raise':
+            return [('no-exception', False)]
+        if st.empty:
+            return [('an-empty-list-stays-empty', list(out.value) == [])]
+        got = list(out.value)
+        want0 = S('stage', numeral(c, st.stage), '.', st.prod, ':', st.method)
+        return [('one-entry-per-reference-in-the-same-order', len(got) == 5),
+                ('component-references-get-their-absolute-spelling', len(got) == 5 and bool(same(got[0], want0)) and bool(same(got[1], st.refs[1]))),
+                ('files-application-dependencies-and-top-level-folders-are-untouched',
+                 len(got) == 5 and got[2] == st.refs[2] and got[3] == st.refs[3] and got[4] == st.refs[4])]
+
+
 class ReferenceClassesBounded:
     """BOUNDED stand-in (native enumeration, never counted as proved) for the two classes that wrap the parser and the
     printer: graph.DataReference (absoluteReference / relativeReference) and graph.ComponentIdentifier (identifier,
@@ -357,6 +393,6 @@ class ReferenceClassesBounded:
         return fn
 
 
-TARGETS = [CompileReference(), ParsePrint(), Classify(), NonComponentForms(), Expand(), ExpandIdempotent(), ManifestTopLevel()]
+TARGETS = [CompileReference(), ParsePrint(), Classify(), NonComponentForms(), Expand(), ExpandIdempotent(), ManifestTopLevel(), ExpandList()]
 LEMMAS = []
 BOUNDED = [ReferenceClassesBounded()]
